@@ -16,10 +16,35 @@ from . import build, core, qref
 TOL = 1e-9
 
 PRELUDE = """\
+class HP extends HM<int> {
+    public qubit pq;
+    public constructor() -> HP {
+        super();
+        return this;
+    }
+}
+class HM<T> extends HC {
+    public qubit mq;
+    public constructor() -> HM<T> {
+        super();
+        return this;
+    }
+}
+class HC {
+    public qubit cq;
+    public constructor() -> HC = default;
+}
 class H1 {
     public qubit q;
     public qubit[2] qs;
     public constructor() -> H1 = default;
+}
+class H1S extends H1 {
+    public int tag = 1;
+    public constructor() -> H1S {
+        super();
+        return this;
+    }
 }
 class HT {
     @tracked public qubit tq;
@@ -46,6 +71,19 @@ class HD {
 class HS {
     public static qubit sq;
     public constructor() -> HS = default;
+}
+class HSB extends HS {
+    public static qubit own;
+    public constructor() -> HSB {
+        super();
+        return this;
+    }
+    public static function touchBase() -> void {
+        x(sq);
+    }
+    public static function touchOwn() -> void {
+        h(own);
+    }
 }
 class H2 {
     public H1 inner;
@@ -164,6 +202,7 @@ def _init_helper_lines():
         "freset": _line_of(P, "\n    reset p;") + 1,
         "inner2": _line_of(P, "\n    h(p);") + 1,
         "HD.dtor": _line_of(P, "        h(this.dq);"),
+        "touchBase": _line_of(P, "        x(sq);"), "touchOwn": _line_of(P, "        h(own);"),
         "HD.dtor.x": _line_of(P, "        x(ds);"),
     })
 
@@ -213,13 +252,13 @@ PROFILES = {
                     misuse=0, alias=0, block=4, measure_reg=2),
 }
 
-NEED = {"H1": 3, "HT": 1, "H2": 4, "HA": 3, "HD": 2, "HG": 1}     # HD: its own qubit + the one its destructor declares     # qubits owned by an instance
-REGFIELD = {"H1": ("qs", 2), "HA": ("ta", 3)}   # the qubit[] field of a class
+NEED = {"H1": 3, "HT": 1, "H2": 4, "HA": 3, "HD": 2, "HG": 1, "H1S": 3, "HP": 3}     # HD: its own qubit + the one its destructor declares     # qubits owned by an instance
+REGFIELD = {"H1": ("qs", 2), "HA": ("ta", 3), "H1S": ("qs", 2)}   # the qubit[] field of a class
 
 ANGLES = [0.5, -0.5, 1.5, 0.25, 3.0, -2.75, 0.125, 6.25, 0.0, 1.0, -1.0, 0.0078125, 100.5,
           2.0, 0.75, -3.140625,
           # tiny but not negligible: 2^-19, and float32(2*pi) whose half-angle sine is ~9e-8
-          1.9073486328125e-06, 6.2831854820251465]
+          1.9073486328125e-06, 6.2831854820251465, 7.62939453125e-06]
 
 
 class Gen:
@@ -258,12 +297,17 @@ class Gen:
             for i in range(n):
                 form = self.r.choice("ckx")
                 out.append(("e", name, i, form))
-        out.append(("s", "HS", "sq"))       # the class-level qubit, allocated before main starts
+        out.append(("s", "HS", "sq"))       # the class-level qubits, allocated before main starts
+        out.append(("s", "HSB", "own"))
         for name, cls in self.visible("objs"):
-            if cls == "H1":
+            if cls in ("H1", "H1S"):
                 out.append(("f", name, "q"))
                 out.append(("fe", name, "qs", 0))
                 out.append(("fe", name, "qs", 1))
+            elif cls == "HP":
+                out.append(("f", name, "cq"))
+                out.append(("f", name, "mq"))
+                out.append(("f", name, "pq"))
             elif cls == "HT":
                 out.append(("f", name, "tq"))
             elif cls == "HA":
@@ -328,7 +372,9 @@ class Gen:
         return dict(k="decl", name=name, n=n, tracked=tracked)
 
     def stmt_new(self):
-        cls = self.r.choice(["H1", "H1", "H2", "HT", "HA", "HG"] if self.p != "tracked" else ["HT", "HT", "HA", "H1", "HG", "HG"])
+        cls = self.r.choice(["H1", "H1S", "H2", "HT", "HA", "HG", "HP"] if self.p != "tracked" else ["HT", "HT", "HA", "H1", "HG", "HG"])
+        if self.p in ("reset", "handles") and self.r.random() < 0.35:
+            cls = self.r.choice(["H1S", "H1S", "HP"])     # qubits inherited from a base class
         if self.p in ("flags", "flags_recycle") and self.r.random() < 0.4:
             cls = "HD"     # its destructor applies a gate to its qubit: a measured dq makes the death itself a misuse
         elif self.p in ("handles", "reset", "qasm") and self.r.random() < 0.2:
@@ -343,6 +389,8 @@ class Gen:
         self.nq += need
         # through a factory function: the object travels through the interpreter's return slot
         via = "func" if cls in ("H1", "HT", "HA", "HD") and self.r.random() < 0.35 else "new"
+        if cls == "H1S" and self.r.random() < 0.5:
+            via = "base"       # held through a variable of the base class: H1 o = new H1S();
         return dict(k="new", name=name, cls=cls, via=via)
 
     def stmt_destroy(self):
@@ -410,6 +458,10 @@ class Gen:
             vias += ["method"]
         if g == "rz":
             vias += ["method"]
+        if qs[0] == ("s", "HS", "sq") and g == "x" and self.r.random() < 0.6:
+            vias = ["sbase"]      # a base-class static qubit named bare inside a subclass's static method
+        if qs[0] == ("s", "HSB", "own") and g == "h" and self.r.random() < 0.6:
+            vias = ["sown"]
         return dict(k="gate", g=g, qs=qs, theta=theta, tform=tform, via=self.r.choice(vias))
 
     def stmt_measure(self):
@@ -647,6 +699,8 @@ class Renderer:
         elif k == "new":
             if s.get("via") == "func":
                 self.emit(ind, "%s %s = mk%s();" % (s["cls"], s["name"], s["cls"]), s)
+            elif s.get("via") == "base":
+                self.emit(ind, "H1 %s = new H1S();" % s["name"], s)
             elif s["cls"] == "HG":
                 # a generic specialisation owning a @tracked qubit; the diamond form every other time
                 self.emit(ind, "HG<int> %s = new HG<%s>();" % (s["name"], "int" if len(s["name"]) % 2 else ""), s)
@@ -676,6 +730,10 @@ class Renderer:
                 self.emit(ind, "inner2(%s);" % a, s)
             elif via == "method":
                 self.emit(ind, "u.m%s(%s);" % (g, a), s)
+            elif via == "sbase":
+                self.emit(ind, "HSB.touchBase();", s)
+            elif via == "sown":
+                self.emit(ind, "HSB.touchOwn();", s)
         elif k == "measure":
             q = render_qref(s["q"])
             f = s["form"]
@@ -942,6 +1000,11 @@ class Model:
         if e["op"] != op or e["q0"] != q0 or e["q1"] != q1:
             key = "lang:operand-order" if (e["op"] == op and {e["q0"], e["q1"]} == {q0, q1}) \
                 else "lang:op-mismatch"
+            if e["op"] == op and key == "lang:op-mismatch":
+                # the right operation on another qubit: the handle named in the program denotes a qubit
+                # it was not created for
+                self.report("C03", "handle:denotes-other-qubit", "program performs %s but the operation reached "
+                            "simulator qubit %d%s" % (desc, e["q0"], "" if e["q1"] < 0 else ",%d" % e["q1"]))
             self.report("C01", key, "program performs %s but the simulator was asked for %s(%d%s)"
                         % (desc, e["op"], e["q0"], "" if e["q1"] < 0 else ",%d" % e["q1"]))
             raise Mismatch("C01", key, desc)
@@ -1069,6 +1132,13 @@ class Model:
                         self.report("C04", "reset:released-without-reset",
                                     "qubit %d of a destroyed %s was released without a reset while it is "
                                     "|1> with probability %r" % (nxt["idx"], inst.cls, p1))
+                for idx in sorted(want - got):
+                    if nxt is None or nxt["k"] != "qfree":
+                        p1 = self.state.p1(idx)
+                        if p1 > TOL:
+                            self.report("C04", "reset:missing-on-destroy", "qubit %d of a destroyed %s was neither "
+                                        "reset nor released; it is |1> with probability %r" % (idx, inst.cls, p1))
+                            break
                 self.report("C03", "release:missing", "object %s destroyed but qubits %s were not "
                             "released" % (inst.cls, sorted(want - got)))
                 raise Mismatch("C03", "release:missing", path)
@@ -1077,6 +1147,13 @@ class Model:
                 continue
             self.sim_ops.append(e)
             if e["op"] != "reset" or e["q0"] not in want or e["q0"] in got:
+                for idx in sorted(want - got):
+                    p1 = self.state.p1(idx)
+                    if p1 > TOL:
+                        self.report("C04", "reset:missing-on-destroy", "qubit %d of a destroyed %s was not reset (the "
+                                    "run went on with %s q%d); it is |1> with probability %r" %
+                                    (idx, inst.cls, e["op"], e["q0"], p1))
+                        break
                 self.report("C03", "release:unexpected", "while releasing %s saw %s q%d" %
                             (inst.cls, e["op"], e["q0"]))
                 raise Mismatch("C03", "release:unexpected", path)
@@ -1210,7 +1287,12 @@ class Model:
 
     def run(self, ir):
         # static qubit fields are allocated when the run starts, before main's first statement
-        self.statics = {"HS.sq": self.alloc("static HS.sq")}
+        self.statics = {}
+        for _ in range(2):
+            nxt = next((e for e in self.ev[self.pos:] if e["k"] == "qalloc"), None)
+            nm = nxt["name"] if nxt is not None and nxt.get("name") in ("HS.sq", "HSB.own") and \
+                nxt["name"] not in self.statics else ("HS.sq" if "HS.sq" not in self.statics else "HSB.own")
+            self.statics[nm] = self.alloc("static " + nm)
         self.push()
         try:
             for s in ir:
@@ -1332,9 +1414,13 @@ class Model:
 
     def new_instance(self, cls, name):
         inst = Instance(cls)
-        if cls == "H1":
+        if cls in ("H1", "H1S"):
             inst.q["q"] = self.alloc("%s.q" % name)
             inst.q["qs"] = [self.alloc("%s.qs[%d]" % (name, i)) for i in range(2)]
+        elif cls == "HP":
+            # fields are laid out base-first: HC.cq, HM<int>.mq, HP.pq - three distinct qubits
+            for f in ("cq", "mq", "pq"):
+                inst.q[f] = self.alloc("%s.%s" % (name, f))
         elif cls == "HT":
             inst.q["tq"] = self.alloc("%s.tq" % name)
         elif cls == "HA":
@@ -1371,7 +1457,7 @@ class Model:
             self.scopes[-1][s["pre_bit"][0]] = ("bit", s["pre_bit"][1])
         ix = [self.resolve(q) for q in s["qs"]]
         helper = {"direct": None, "func": "f" + g, "funcr": "fcxr", "qfunc": "qh",
-                  "nested": "inner2", "method": "m" + g}[via]
+                  "nested": "inner2", "method": "m" + g, "sbase": "touchBase", "sown": "touchOwn"}[via]
         line = s["line"] if helper is None else HELPER_LINE[helper]
         for i in ix:
             self.op_guard(i, line, g)
